@@ -936,3 +936,32 @@ func VerifC04FanInAnyTyped() {
 	_, e2 := r.Collect(ctx, schema.StreamReaderFromArray([]string{"x"}))
 	vassert((e0 == nil) == (e1 == nil) && (e0 == nil) == (e2 == nil), "fan-in of any-typed nodes carrying maps: Invoke, Stream and Collect all succeed or all fail")
 }
+
+// A workflow node that is triggered by a dependency only (it has no data input at all) and whose input and output
+// types differ, next to an ordinary node: the four paradigms agree (the node runs on the zero value / an empty
+// stream of its input type in each of them).
+func VerifC04DependencyOnly() {
+	ctx := context.Background()
+	vcfg("fifo", 1)
+	vcfg("selectfirst", 1)
+	fa := c04Fn{name: "a"}
+	type dIn struct{ N int }
+	wf := NewWorkflow[string, string]()
+	wf.AddLambdaNode("a", fa.lambda(1<<uint(vchoose("native", 4)))).AddInput(START)
+	wf.AddLambdaNode("dep", InvokableLambda(func(ctx context.Context, in dIn) (string, error) {
+		if in.N != 0 {
+			return "", c04Err
+		}
+		return "d", nil
+	})).AddDependency("a")
+	// (a map-typed join: chunks of a struct-typed input need a registered concat function, which is not the subject)
+	wf.AddLambdaNode("join", InvokableLambda(func(ctx context.Context, in map[string]any) (string, error) {
+		a, _ := in["A"].(string)
+		d, _ := in["D"].(string)
+		return a + d, nil
+	})).AddInput("a", ToField("A")).AddInput("dep", ToField("D"))
+	wf.End().AddInput("join")
+	r, err := wf.Compile(ctx)
+	vassert(err == nil, "workflow compiles")
+	c04Agree(r, "", false, "dependency-only node")
+}
